@@ -216,6 +216,18 @@ def check_config(c):
                       lambda: 'accuracy(2^600 Y, Y) = %r, documented saturation 1e299' % teneva.accuracy(Yb, Y), tags)
             a1 = teneva.accuracy(Y, Yb)
             res.check(abs(a1 - 1) <= 1e-9, 'accuracy.one', case, lambda: 'accuracy(Y, 2^600 Y) = %r, exact 1 - 2^-600' % a1, tags)
+        # ratio beyond the double range (>= 2^1100): still the documented saturation, never -1 / NaN / inf
+        boost = min(450 - max(s), 400)
+        if boost >= 100 and d * boost >= 1100:
+            nb = -(-1100 // boost)
+            Yc = [G.copy() for G in Y]
+            for j in range(nb):
+                Yc[j] = Yc[j] * 2.0 ** boost
+            a2 = teneva.accuracy(Yc, Y)
+            res.check(a2 == 1.E+299, 'accuracy.saturate_far', case,
+                      lambda: 'accuracy(2^%d Y, Y) = %r, documented saturation 1e299' % (nb * boost, a2), tags)
+            a3 = teneva.accuracy(Y, Yc)
+            res.check(abs(a3 - 1) <= 1e-9, 'accuracy.one_far', case, lambda: 'accuracy(Y, 2^%d Y) = %r, exact ~1' % (nb * boost, a3), tags)
         # ---- stabilised rounding -----------------------------------------------------------------------------
         if d <= 100:
             Y4 = teneva.add(Y, Yd)          # = 3 Y with doubled ranks
